@@ -272,6 +272,23 @@ func (x *hpRun) history(r *h.Report, ops []string) bool {
 				remoteOps++
 			}
 			r.Eval(kind, "")
+			// ---- SPEC monitors first (implementation only; they must see the step even if the model disagrees)
+			var after [][]int
+			if v != hpPanic {
+				after = t.decAny(fd.DataCopyAny())
+				for _, hd := range hs {
+					if hpJSON(hd.val) != hd.js {
+						changedHandles++
+					}
+				}
+				if p := t.partialPart(w); !w.isFull() && (p == "selector" || p == "idless" || strings.Contains(w.deletePart(), "el")) {
+					inplaceOps++
+				}
+				t.c11Handles(r, done, w, hs)
+				t.c11Store(r, done, w, before, after, v)
+				t.c04(r, done, w, before, after, v)
+			}
+			// ---- correspondence
 			wf := strings.Fields(want)
 			if hpVerdictS(v) != wf[0] {
 				r.Mismatch(done, hpVerdictS(v), want, fmt.Sprintf("%s: verdict of %s", t.fn, op))
@@ -285,7 +302,9 @@ func (x *hpRun) history(r *h.Report, ops []string) bool {
 			inID := strings.TrimPrefix(wf[1], "in=")
 			retID := strings.TrimPrefix(wf[2], "ret=")
 			hin := reg(inID, "input", input)
-			hin.abs, hin.js = hpCloneList(w.items), inJS // deep copy taken before the call
+			if hin.js != inJS {
+				r.SpecFail("C11/input-modified-by-call:"+shape, done, fmt.Sprintf("%s: the value handed in read %s before the call and reads %s after it", t.fn, inJS, hin.js))
+			}
 			if (retID == "nil") != (data == nil) {
 				r.Mismatch(done, fmt.Sprint("returned-nil=", data == nil), want, "returned data")
 				return false
@@ -293,24 +312,9 @@ func (x *hpRun) history(r *h.Report, ops []string) bool {
 			if retID != "nil" && retID != inID {
 				reg(retID, "ret", data)
 			}
-			after := t.decAny(fd.DataCopyAny())
 			if !compareAll(op) {
 				return false
 			}
-			// ---- SPEC monitors (implementation only)
-			n0 := 0
-			for _, hd := range hs {
-				if hpJSON(hd.val) != hd.js {
-					n0++
-				}
-			}
-			changedHandles += n0
-			if p := t.partialPart(w); !w.isFull() && (p == "selector" || p == "idless" || strings.Contains(w.deletePart(), "el")) {
-				inplaceOps++
-			}
-			t.c11Handles(r, done, w, hs)
-			t.c11Store(r, done, w, before, after, v)
-			t.c04(r, done, w, before, after, v)
 			if w.remote && w.persist {
 				for _, k := range alts {
 					if !x.twin(r, t, done, w, before, after, v, k) {
@@ -948,7 +952,7 @@ func TestHeap(t *testing.T) {
 		}
 	}
 	r.Info["representative_pool"] = len(pool)
-	per := h.Scale(40, 300)
+	per := h.Scale(40, 700)
 	for _, fn := range pool {
 		g := &hpGen{rng: rng, t: types[fn]}
 		for i := 0; i < per; i++ {
@@ -957,7 +961,7 @@ func TestHeap(t *testing.T) {
 			}
 		}
 	}
-	perRest := h.Scale(4, 60)
+	perRest := h.Scale(4, 200)
 	for _, fn := range rest {
 		g := &hpGen{rng: rng, t: types[fn]}
 		for i := 0; i < perRest; i++ {
